@@ -1,4 +1,5 @@
 import TinkVerif.Model.Keyset
+import TinkVerif.Model.KeysetInfo
 import Driver.Manager
 /-! Line protocol for the keyset structural gate (C14/C13). -/
 namespace Driver.Ks
@@ -23,12 +24,47 @@ def showHandle (h : Option Manager.Handle) : String :=
   | some es => "ok " ++ ";".intercalate (es.map fun e =>
       s!"{e.id}:{Driver.Mgr.statusCode e.status}:{if e.isPrimary then 1 else 0}")
 
+/-- key-with-material token: typeUrlHex:valueHex:material:status:keyId:prefixType ("-" = empty bytes;
+    numbers are the varint values on the wire) -/
+def fkey? (s : String) : Option KInfo.FKey :=
+  match s.splitOn ":" with
+  | [u, v, m, st, id, p] => do
+    pure { typeUrl := ← bytesOfTok? u, value := ← bytesOfTok? v, material := ← m.toNat?, status := ← st.toNat?,
+           keyId := ← id.toNat?, prefixType := ← p.toNat? }
+  | _ => none
+
+/-- keyset-with-material token: primary|key;key;… ("-" for no keys) -/
+def fkeyset? (s : String) : Option KInfo.FKeyset :=
+  match s.splitOn "|" with
+  | [p, keys] => do
+    let ks ← if keys == "-" then some [] else (keys.splitOn ";").mapM fkey?
+    pure { primary := ← p.toNat?, keys := ks }
+  | _ => none
+
+def showFKeyset (ks : KInfo.FKeyset) : String :=
+  s!"{ks.primary}|" ++ (if ks.keys.isEmpty then "-" else ";".intercalate (ks.keys.map fun k =>
+    s!"{tokOfBytes k.typeUrl}:{tokOfBytes k.value}:{k.material}:{k.status}:{k.keyId}:{k.prefixType}"))
+
 def handle (toks : List String) : Option String :=
   match toks with
   | ["validate", p, ks] => do pure (if validate (← keyset? p ks) then "ok" else "err")
   | ["handle", p, ks] => do pure (showHandle (handleOf (← keyset? p ks)))
   | ["nosecrets", p, ks] => do pure (showHandle (noSecretsHandle (← keyset? p ks)))
   | ["hassecrets", p, ks] => do pure (if hasSecrets (← keyset? p ks) then "1" else "0")
+  -- C13 (Model/KeysetInfo.lean): keysets with key material; answers are hex of the wire encoding
+  | ["info", t] => do pure (tokOfBytes (Wire.encode (KInfo.info (← fkeyset? t))))
+  | ["ksbytes", t] => do pure (tokOfBytes (Wire.encode (KInfo.toWire (← fkeyset? t))))
+  | ["encks", ct, t] => do pure (tokOfBytes (Wire.encode (KInfo.encryptedKeyset (← bytesOfTok? ct) (← fkeyset? t))))
+  | ["encbin", ct] => do pure (tokOfBytes (Wire.encode (KInfo.binaryForm (← bytesOfTok? ct))))
+  | ["rdks", b] => do
+    match KInfo.parseKeyset (← bytesOfTok? b) with
+    | none => pure "reject"
+    | some ks => pure ("ok " ++ showFKeyset ks)
+  | ["ctof", b] => do
+    match Wire.decode (← bytesOfTok? b) with
+    | none => pure "reject"
+    | some m => pure ("ok " ++ tokOfBytes (KInfo.ciphertextOf m))
+  | ["utf8", b] => do pure (if KInfo.utf8Valid (← bytesOfTok? b) then "1" else "0")
   | _ => none
 
 end Driver.Ks
